@@ -451,7 +451,9 @@ class PinMonitor(Base):
         self.count("free_site_checks", int(f.sum()))
         if f.any():
             err = np.abs(np.asarray(res.psi)[f] - psi_ref[f].astype(complex))
-            mag = np.abs(psi_ref[f]).astype(float) + np.abs(ev["w"][f]).astype(float) + 1e-300
+            mag = np.abs(psi_ref[f]).astype(float) + np.abs(ev["w"][f]).astype(float) + 1e-280
+            # exp(-i mu dt) is only determined to |mu dt| * eps in double precision (diverging runs reach |mu dt| >> 1)
+            mag = mag * (1 + 1e-5 * np.abs(np.asarray(kw["mu"], dtype=float)[f] * float(kw["dt"])))
             r = float(np.max(err / mag))
             self.worst("free_update_error_over_gate", r / 1e-8)
             if r > 1e-8:
